@@ -356,8 +356,8 @@ Print Assumptions C17_restore_reowns.
    session then shares its tuple. *)
 Theorem C17_restore_reowns_refuted :
   let w := e2e_run Repaired world0 [EDiscover e2e_k] in
-  e2e_snapshot (e2e_restart_skipping [e2e_k] w) e2e_k = (1%nat, 0%nat, None) /\
-  e2e_snapshot (e2e_step Repaired (e2e_restart_skipping [e2e_k] w) (EPadr e2e_k)) e2e_k = (1%nat, 1%nat, Some proto_pppoe) /\
+  e2e_snapshot (e2e_restart_skipping Repaired [e2e_k] w) e2e_k = (1%nat, 0%nat, None) /\
+  e2e_snapshot (e2e_step Repaired (e2e_restart_skipping Repaired [e2e_k] w) (EPadr e2e_k)) e2e_k = (1%nat, 1%nat, Some proto_pppoe) /\
   e2e_snapshot (e2e_restart w) e2e_k = (1%nat, 0%nat, Some proto_ipoe).
 Proof. exact restart_skipping_witness. Qed.
 Print Assumptions C17_restore_reowns_refuted.
